@@ -232,8 +232,8 @@ PROPS = {
     ),
     "C10": dict(
         level="proof",
-        modules=["Exmex.Props.Reach", "Exmex.Props.ReachCorollaries", "Exmex.Props.C10", "Exmex.Props.C10Shortcuts", "Exmex.Proofs.WrapOK", "Exmex.Props.C02Deep", "Exmex.Props.C03"],
-        theorems=["Exmex.Reach.reach_inv", "Exmex.Reach.reach_operateBin_sound", "Exmex.Reach.reach_mul_sound", "Exmex.C10.resetVars_sound", "Exmex.C10.operateBin_sound", "Exmex.C10.operateUnary_sound", "Exmex.C10.operateBin_unknown",
+        modules=["Exmex.Props.FlatApi", "Exmex.Props.Reach", "Exmex.Props.ReachCorollaries", "Exmex.Props.C10", "Exmex.Props.C10Shortcuts", "Exmex.Proofs.WrapOK", "Exmex.Props.C02Deep", "Exmex.Props.C03"],
+        theorems=["Exmex.Reach.reach_inv", "Exmex.FlatApi.flat_operateBin_sound", "Exmex.FlatApi.flat_operateUnary_sound", "Exmex.FlatApi.flat_operateBin_unknown", "Exmex.FlatApi.toDeep_good", "Exmex.FlatApi.fgood_parse", "Exmex.FlatApi.fgood_fromDeep", "Exmex.Reach.reach_operateBin_sound", "Exmex.Reach.reach_mul_sound", "Exmex.C10.resetVars_sound", "Exmex.C10.operateBin_sound", "Exmex.C10.operateUnary_sound", "Exmex.C10.operateBin_unknown",
                   "Exmex.C10.add_sound", "Exmex.C10.mul_sound", "Exmex.C10.div_sound", "Exmex.C10.pow_sound", "Exmex.C10.sub_sound", "Exmex.C10.neg_sound",
                   "Exmex.C10.operateUnary_yields", "Exmex.Shortcut.compile_folded", "Exmex.Shortcut.operateBin_folded", "Exmex.Shortcut.wrapOK_of_folded",
                   "Exmex.C02.deep_new_sound", "Exmex.C02.deep_compile_sound", "Exmex.C03.fromDeep_sound"],
@@ -252,8 +252,8 @@ PROPS = {
     ),
     "C11": dict(
         level="proof",
-        modules=["Exmex.Props.Reach", "Exmex.Props.ReachCorollaries", "Exmex.Props.C11", "Exmex.Props.C02Deep", "Exmex.Props.C03"],
-        theorems=["Exmex.Reach.reach_inv", "Exmex.Reach.reach_subs_sound", "Exmex.C11.subs_sound", "Exmex.C11.subs_none", "Exmex.C11.subs_sound_gen", "Exmex.C11.subs_listed", "Exmex.C02.deep_compile_sound", "Exmex.C03.fromDeep_sound"],
+        modules=["Exmex.Props.FlatApi", "Exmex.Props.Reach", "Exmex.Props.ReachCorollaries", "Exmex.Props.C11", "Exmex.Props.C02Deep", "Exmex.Props.C03"],
+        theorems=["Exmex.Reach.reach_inv", "Exmex.FlatApi.flat_subs_sound", "Exmex.Reach.reach_subs_sound", "Exmex.C11.subs_sound", "Exmex.C11.subs_none", "Exmex.C11.subs_sound_gen", "Exmex.C11.subs_listed", "Exmex.C02.deep_compile_sound", "Exmex.C03.fromDeep_sound"],
         level_text=("kernel-checked for the deep form: subs_sound (the result lists exactly the sorted, duplicate-free union of the untouched variables and the replacements' variables, "
                     "and its value under every environment is the value of the original with each replaced variable bound to the value of its replacement - simultaneous, "
                     "replacements not re-substituted, self-referential replacements included), subs_none (nothing replaced: same variables, same function), subs_listed (the "
@@ -290,8 +290,8 @@ PROPS = {
     ),
     "C09": dict(
         level="proof",
-        modules=["Exmex.Props.Reach", "Exmex.Props.ReachCorollaries", "Exmex.Props.C09", "Exmex.Props.C05", "Exmex.Props.C02Deep", "Exmex.Props.C03"],
-        theorems=["Exmex.Reach.reach_inv", "Exmex.Reach.reach_partial_vars", "Exmex.C09.partial_vars", "Exmex.C09.partial_preserves", "Exmex.C09.partialIter_index_error", "Exmex.C09.partialIter_ok_inrange",
+        modules=["Exmex.Props.FlatApi", "Exmex.Props.Reach", "Exmex.Props.ReachCorollaries", "Exmex.Props.C09", "Exmex.Props.C05", "Exmex.Props.C02Deep", "Exmex.Props.C03"],
+        theorems=["Exmex.Reach.reach_inv", "Exmex.FlatApi.flat_partialIter_vars", "Exmex.FlatApi.flat_partialIter_index_error", "Exmex.Reach.reach_partial_vars", "Exmex.C09.partial_vars", "Exmex.C09.partial_preserves", "Exmex.C09.partialIter_index_error", "Exmex.C09.partialIter_ok_inrange",
                   "Exmex.C09.partialIter_nil", "Exmex.C09.partialIter_nil_sound", "Exmex.C09.partialIter_cons", "Exmex.C09.partialIter_replicate_succ",
                   "Exmex.C09.partialIter_sound_single", "Exmex.C09.partialIter_vars", "Exmex.C09.flat_partialIter_single_sound", "Exmex.C05.partial_sound"],
         level_text=("kernel-checked: partial_vars / partialIter_vars (a derivative lists exactly the variables of its antiderivative - purely structural, for any index "
@@ -405,8 +405,8 @@ PROPS = {
     ),
     "C08": dict(
         level="proof",
-        modules=["Exmex.Props.C08"],
-        theorems=["Exmex.C08.call_tokens", "Exmex.C08.call_tokens_dipped", "Exmex.C08.feed_comma_dipped", "Exmex.C08.call_tokens_init", "Exmex.C08.lexStep_comma"],
+        modules=["Exmex.Props.C08", "Exmex.Props.C08Any"],
+        theorems=["Exmex.C08.call_any", "Exmex.C08.infix_any", "Exmex.C08.skip_of_balanced", "Exmex.C08.call_tokens", "Exmex.C08.call_tokens_dipped", "Exmex.C08.feed_comma_dipped", "Exmex.C08.call_tokens_init", "Exmex.C08.lexStep_comma"],
         rule="expressions in which 25-60% of the operand positions are calls op(a, b) (alphabetic and symbolic binary-only operators), rendered in call form, nested in first and second arguments, inside parentheses and under unary operators, depth up to 6; the implementation's token stream must equal the canonical tokens ((a) op (b)) and the value the documented one; non-trivial = at least one call and two operators; distinct by request hash",
         kinds=[dict(kind="flat", quick=20000, thorough=500000, args=["calls"],
                     corr=["toksimpl", "wo", "c", "vars"], oracle=[("toksimpl", "stoks"), ("wo_nf", "spec_nf"), ("c_nf", "spec_nf")],
